@@ -21,7 +21,7 @@ RULE = ('(i) round trip rdkit_to_networkx(networkx_to_rdkit(G)) on generator mol
         'moves every bead by t. Inputs are restricted to molecules on which RDKit\'s aromaticity perception agrees with the '
         'generator\'s and that RDKit sanitises; embedding failures are counted, not judged. distinct = (sub-check, feature '
         'set, #heavy); non-trivial = at least 2 heavy atoms.')
-ASSUMPTIONS = ['RDKit sanitisation / valence model is taken as reference where it accepts the molecule; rejected molecules are skipped and counted',
+ASSUMPTIONS = ['RDKit sanitisation / valence model is taken as reference where it accepts the molecule; rejected molecules and molecules with hypervalent centres are skipped and counted',
                'covalent radii (Cordero 2008): H .31 C .76 N .71 O .66 F .57 P 1.07 S 1.05 Cl 1.02 Br 1.20; window [0.70,1.25] x sum',
                'tolerance 1e-9 for bead positions',
                'embedding oracle domain: standard (lowest) valences, no charges, rings of 5+ atoms sharing no atom']
@@ -110,6 +110,12 @@ def rdkit_agrees(case):
     """RDKit, given the generator's Kekule structure, accepts the molecule and perceives the same aromatic bonds"""
     from rdkit import Chem
     t = MC.truth_from_json(case['truth'])
+    # hypervalent centres (N(V), P(V), S(IV/VI)) are normalised by RDKit's clean-up in an atom-order
+    # dependent way (P(=O)(=C) became [P+]-[O-] for one ordering only): outside the comparison's domain
+    for n, d in t.nodes(data=True):
+        tot = sum(e['order'] for _, _, e in t.edges(n, data=True)) + d['nh']
+        if abs(tot - M.VAL[(d['element'], d['charge'])][0]) > 1e-9:
+            return False
     mol = Chem.RWMol()
     idx = {}
     for n, d in t.nodes(data=True):
